@@ -2,9 +2,10 @@
 ASSUME = [
     "Kubernetes API server and informers are modelled: optimistic concurrency per object (resourceVersion), status subresource, per-kind caches "
     "that are arbitrary earlier store states and only move forward; all reads of one reconcile see the state as of its Begin (the simulator "
-    "serves them from a snapshot taken then); deletion of a run object is immediate (no foreground-deletion interval)",
-    "one experiment in one namespace; trial names returned by the algorithm are fresh and distinct (the harness generates them so); the empty "
-    "trial-name fallback <suggestion>-<rand8> is not exercised",
+    "serves them from a snapshot taken then; only a read of a cached kind that follows a Conflict on one of the reconcile's own writes is served from the store); deletion of a run object is immediate (no foreground-deletion interval)",
+    "one experiment in one namespace (it carries labels of its own, and every third proposal of the fake algorithm service carries a label with the same key: "
+    "labels are invisible to the model); trial names returned by the algorithm are fresh and distinct (the harness generates them so); every seventh proposal is "
+    "left unnamed and named by katib (<suggestion>-<random suffix>; the simulator ties the generated name to the proposal's number when it first appears in a status write)",
     "the early-stopping service only stops trials that are created, running in the store's view and not completed, by appending the EarlyStopped "
     "condition (pkg/earlystopping medianstop SetTrialStatus); the metrics of a trial arrive progressively: the first report creates its DB entry (with or without an objective value), a later report can only add the objective value to an entry that has none (an objective value once stored is never changed)",
     "objective values and goal are multiples of 1/8 with small magnitude (exact in binary64); NaN/Inf excluded by the property",
